@@ -155,7 +155,7 @@ def handle (l : String) : String :=
       else
         let obsR := obs.map renderEvent
         let variants : List (String × Variant) :=
-          [("asWritten", .asWritten), ("batchFirst", ⟨true, false⟩), ("atomicInsert", ⟨false, true⟩), ("fixed", .fixed)]
+          [("preFix", .preFix), ("batchFirstOnly", ⟨true, false⟩), ("atomicInsertOnly", ⟨false, true⟩), ("head", .head)]
         let diffs := variants.map fun (nm, v) => (nm, firstDiff ((writeLog v db0 ghost0 steps).map renderEvent) obsR 0)
         let matching := (diffs.filter fun d => d.2.isNone).map (·.1)
         let (v, ltxt) :=
